@@ -5,8 +5,8 @@
 set -u
 NAME=$1; SRC=$2
 WT=$(mktemp -d /tmp/refchk.XXXXXX); rmdir "$WT"
-git -C /repo worktree add -q --detach "$WT" HEAD || exit 3
-cleanup() { git -C /repo worktree remove --force "$WT" >/dev/null 2>&1; rm -rf "$WT"; }
+flock /tmp/fim_wt.lock git -C /repo worktree add -q --detach "$WT" HEAD || exit 3
+cleanup() { flock /tmp/fim_wt.lock git -C /repo worktree remove --force "$WT" >/dev/null 2>&1; rm -rf "$WT"; }
 trap cleanup EXIT
 cd "$WT" || exit 3
 RC_CLEAN=0; RC_PATCHED=0; REBASED=0
